@@ -69,7 +69,9 @@ def gen(rng, tier, i):
         has_net = True
     else:
         has_net = False
-    if rng.random() < 0.3:
+    storm = rng.random() < (0.02 if tier == 'quick' else 0.04)
+    small_budget = storm or rng.random() < 0.3
+    if small_budget:      # (a storm of a thousand failing tasks, some of them never-ending, needs a small budget per task)
         p.cfg('MaxEvaluationCost', rng.choice((2000, 5000, 20000)))
     if rng.random() < 0.3:
         p.cfg('MaxCallDepth', rng.choice((12, 20, 30)))
@@ -115,7 +117,10 @@ def gen(rng, tier, i):
 
     def bomb_script(kindname):
         b = _bomb(st, kindname)
-        how = rng.choice(('err', 'err', 'typeerr', 'forever', 'deepforever', 'throw')) if 'limit' in enabled else rng.choice(('err', 'err', 'typeerr', 'throw'))
+        # (a never-ending script in a hook that runs for every message - receive_snoop - with the default budget of a million
+        # ticks per call would use up the run's instruction budget, not the driver's)
+        endless_ok = 'limit' in enabled and not (kindname == 'snoop' and not small_budget)
+        how = rng.choice(('err', 'err', 'typeerr', 'forever', 'deepforever', 'throw')) if endless_ok else rng.choice(('err', 'err', 'typeerr', 'throw'))
         return 'bomb %d %s' % (b, how)
 
     if console_mode:
@@ -227,7 +232,7 @@ def gen(rng, tier, i):
             nets = [x for x in t if x != 'con']
             if len(nets) >= 2:
                 c, dd = rng.sample(nets, 2)
-                if rng.random() < 0.5: p.cycle(say(c, 'do sc me snoop ' + bomb_script('cmd').replace(';', ',')))
+                if rng.random() < 0.5: p.cycle(say(c, 'do sc me snoop ' + bomb_script('snoop').replace(';', ',')))
                 p.cycle(say(c, 'do snoop u%d' % dd))
                 p.cycle(say(dd, rng.choice(('do echo snooped%d' % dd, 'look', 'do flush;echo again'))))
                 if rng.random() < 0.3: p.cycle(say(c, 'do snoop 0'))
@@ -247,11 +252,11 @@ def gen(rng, tier, i):
             c = rng.choice(t)
             p.cycle(say(c, 'do ' + rng.choice(('bomb %d forever' % _bomb(st, 'limit'), 'bomb %d deepforever' % _bomb(st, 'limit'), 'deep 9', 'spend 300'))))
         if use_inject and rng.random() < 0.25:
-            p.cycles[-1].insert(0, fault(rng.choice((0, 1, 2, 3, 5, 8, 13, 21, 34, 55, 89, 144, 233)), rng.choice(('error', 'error', 'error', 'evalcost'))))
+            p.cycles[-1].insert(0, fault(rng.choice((0, 1, 2, 3, 5, 8, 13, 21, 34, 55, 89, 144, 233)), rng.choice(('error', 'error', 'error', 'evalcost', 'stackroom:%d' % rng.choice((0, 1, 2, 3, 5, 8, 12)), 'stackroom:%d' % rng.choice((0, 1, 2, 4))))))
         if rng.random() < 0.3:
             p.idle(rng.randint(1, 2))
     # "once or repeatedly": now and then one task kind fails more often than any fixed-size driver table has slots
-    if rng.random() < (0.02 if tier == 'quick' else 0.04) and targets():
+    if storm and targets():
         c = rng.choice(targets())
         kind_s = rng.choice(('nf', 'bombcmd', 'inputto', 'hb'))
         for _ in range(1030):
@@ -319,7 +324,7 @@ def check(plan, res):
                     # a bomb that is not an error (deep 9 / spend) reports nothing: only flag err-type bombs
                     if True:
                         v.append(Violation(PROP, 'unreported', 'bomb %s executed but no error report followed' % b, PROP + '/unreported/bomb'))
-        elif e.kind == 'fault_fired' and 'kind=evalcost' not in e.rest:
+        elif e.kind == 'fault_fired' and 'kind=evalcost' not in e.rest and 'kind=stackroom' not in e.rest:
             ok = any(ridx > idx and 'verif injected fault' in txt for ridx, txt in reports) or \
                  any(ridx > idx and 'Too long evaluation' in txt for ridx, txt in reports)
             if not ok:
@@ -396,9 +401,21 @@ def _timers_alive(plan, res):
     # outermost frame; which call_out of that object it was cannot be told, so that object's call_outs are not judged
     for i, e in enumerate(evs):
         if e.kind == 'fault_fired':
+            if not any(x.kind == 'R' and x.rest.startswith('ERR ') for x in evs[i + 1:i + 12]):
+                # the fault was reported on the debug log only (the master's handler failed under the same shortage): where
+                # it struck is unknown, so call_outs that were due by then are not judged
+                t_now = 1000000000 + e.vus // 1000000
+                for key, (cyc0, due0) in list(sets.items()):
+                    if due0 <= t_now: fired.add(key)
             for x in evs[i + 1:i + 12]:
                 m = re.search(r'object=(\S+) .*trace=co_?f\w*@', x.rest) if x.kind == 'R' and x.rest.startswith('ERR ') else None
-                if m: gone.add(m.group(1))
+                if m:
+                    gone.add(m.group(1))
+                    # (the object may be known to the records under a tag that its NAME record - lost to an earlier fault -
+                    # never announced: whatever was due by now is not judged)
+                    t_now = 1000000000 + e.vus // 1000000
+                    for key, (cyc0, due0) in list(sets.items()):
+                        if due0 <= t_now: fired.add(key)
     for e in evs:       # objects appear under their tag once they have one
         if e.kind == 'R' and e.rest.startswith('NAME '):
             w = e.rest.split(' ')
